@@ -1120,11 +1120,12 @@ func (e *Env) applyRO(op Op) {
 	for i, r := range hs {
 		// a read-only handle answers every query like the model (= like the read-write handle, which is
 		// compared with the model after every step)
-		tag := "ro"
-		if !e.own("ro") {
-			tag = ""
+		if e.own("ro") {
+			e.observe(r, e.Dir, "ro", fmt.Sprintf("read-only handle %d", i))
+		} else {
+			// other profiles: the read-only handle is held to the same owned oracles as the read-write one
+			e.observeWith(r, e.Dir, e.ownTags(), fmt.Sprintf("read-only handle %d", i))
 		}
-		e.observe(r, e.Dir, tag, fmt.Sprintf("read-only handle %d", i))
 		if e.own("ro") {
 			if _, err := r.Publish([]klevdb.Message{{Key: []byte("x")}}); !errors.Is(err, klevdb.ErrReadonly) {
 				e.failf("ro", "Publish on a read-only handle returned %v", err)
